@@ -369,7 +369,7 @@ def wsgi_stream_bad_source(r):
 
 
 # ====================================================================================== ASGI on the virtual loop
-def run_asgi(prefix, kind, n_items, raise_at, gate_sends, slow_close, with_disconnect, max_pings, empty_at=None, producer="agen", send_fail_at=None):
+def run_asgi(prefix, kind, n_items, raise_at, gate_sends, slow_close, with_disconnect, max_pings, empty_at=None, producer="agen", send_fail_at=None, unencodable_at=None):
     """producer: "agen" (async generator), "class" (an object with __aiter__/__anext__/aclose that is not a generator),
     "aiter-raises" (its __aiter__ raises). send_fail_at=k: the k-th send() (0 = response start) and every later one raise OSError."""
     import baize.asgi.responses as AR
@@ -399,6 +399,9 @@ def run_asgi(prefix, kind, n_items, raise_at, gate_sends, slow_close, with_disco
                     if raise_at == i:
                         raise Boom(i)
                     obs["yielded"].append(i)
+                    if unencodable_at == i:
+                        yield {"data": "caf\u00e9"}  # cannot be written in the charset of this response (ascii)
+                        continue
                     yield (({} if i == empty_at else {"data": str(i)}) if kind == "sse" else (b"" if i == empty_at else b"%d;" % i))
                 if producer == "idle":
                     await env.gate("zz-idle")  # a producer that has nothing more to say for a long time: never delivered
@@ -491,7 +494,7 @@ def run_asgi(prefix, kind, n_items, raise_at, gate_sends, slow_close, with_disco
                 await env.gate(f"s{nsend[0]:02d}")
 
         g = gen() if producer in ("agen", "idle", "eager") else (Source() if producer == "source" else AIter())
-        resp = AR.SendEventResponse(g, ping_interval=10) if kind == "sse" else AR.StreamResponse(g)
+        resp = (AR.SendEventResponse(g, ping_interval=10, charset="ascii") if unencodable_at is not None else AR.SendEventResponse(g, ping_interval=10)) if kind == "sse" else AR.StreamResponse(g)
         task = s.loop.create_task(resp({"type": "http", "method": "GET", "headers": []}, receive, send))
         loop = s.loop
         choices, points, trace = [], [], []
@@ -680,8 +683,22 @@ def judge_asgi_shared(o, kind):
     return p
 
 
-def judge_asgi(o, kind, n_items, raise_at, with_disconnect, slow_close, empty_at=None, producer="agen", send_fail_at=None):
+def judge_asgi(o, kind, n_items, raise_at, with_disconnect, slow_close, empty_at=None, producer="agen", send_fail_at=None, unencodable_at=None):
     p = []
+    if unencodable_at is not None:
+        # the response fails while it writes an event (its own error, neither the producer's nor the client's): however it ends,
+        # nothing stays pending and the producer is closed once
+        if o["stuck"]:
+            return [f"STUCK ({o['stuck']}): the response call never returned; trace {o['trace'][-10:]}"]
+        if o["pending_tasks"]:
+            p.append(f"{o['pending_tasks']} task(s) still pending after the call ended with {o['exc']}")
+        if o["live_timers"]:
+            p.append(f"{o['live_timers']} timer(s) still armed after the call ended")
+        if o["enter"] > 1 or o["cleanup_started"] != o["enter"] or o["exit"] != o["cleanup_started"]:
+            p.append(f"producer cleanup started {o['cleanup_started']} / completed {o['exit']} times for {o['enter']} entries")
+        if o["gen_started"] and o["gen_state"] != "closed":
+            p.append(f"user generator left {o['gen_state']}")
+        return p
     if producer == "aiter-raises":
         raise_at = -1
     if producer == "idle":
@@ -854,6 +871,9 @@ def asgi_extra_configs(tier):
             out.append(((kind, 1, 0, False, False, False, 1, None), producer, 0))
     for n in (0, 1):
         out.append((("sse", n, None, False, False, True, 1, None), "idle", None))  # a silent producer and a client that leaves
+    for at in (0, 1, 2):
+        for gs in (False, True):
+            out.append((("sse", 3, None, gs, False, False, 1, None), f"unencodable:{at}", None))  # an event the response cannot encode
     for kind in ("stream", "sse"):
         for disc in (False, True):
             out.append(((kind, 4, None, True, False, disc, 1, None), "eager", None))  # a producer that never suspends, a server that does
@@ -870,6 +890,7 @@ def shards(tier, seed):
     out += [("asgi", i) for i in range(len(asgi_configs(tier)))]
     out += [("asgi_x", i) for i in range(len(asgi_extra_configs(tier)))]
     out += [("asgi_shared", kind) for kind in ("stream", "sse")]
+    out += [("denial_stream", kind) for kind in ("stream", "sse")]
     return out
 
 
@@ -926,6 +947,23 @@ def run_shard(desc, tier):
             dfs(lambda prefix: run_wsgi_sse(prefix, n, None, None, line_points, 1, charset="utf-9"), on_exec, bound=bound)
         r.count("states", len(outcomes))
         r.count("distinct_nontrivial")
+    elif desc[0] == "denial_stream":
+        # a streaming response used to refuse a WebSocket handshake (server with the denial extension), the peer going away while
+        # the stream is open - C11's driver; here the question is C06's: the call ends, nothing stays pending
+        from . import c11
+        kind = desc[1]
+
+        def on_exec(x):
+            r.count("evaluations")
+            r.count("traces")
+            r.count("transitions", len(x.choices))
+            probs = [q for q in c11.judge_denial_stream(x.obs) if "never ended" in q or "pending" in q or "raised" in q or "forwarded after the disconnect" in q]
+            if probs:
+                r.violation(f"denial_stream:{kind}:" + ("stuck" if "never ended" in probs[0] else ("late-chunks" if "forwarded after" in probs[0] else "pending")), {"driver": "denial_stream", "kind": kind, "schedule": list(x.choices)},
+                            f"a {kind} response refusing a WebSocket handshake, the peer leaves while the stream is open; schedule {x.obs['trace'][-12:]}: {probs[0]}")
+        dfs(lambda prefix: c11.run_denial_stream(prefix, kind), on_exec)
+        r.count("states", 1)
+        r.count("distinct_nontrivial")
     elif desc[0] == "asgi_shared":
         kind = desc[1]
         outcomes = set()
@@ -958,7 +996,7 @@ def run_shard(desc, tier):
         outcomes = set()
 
         def run(prefix):
-            return run_asgi(prefix, kind, n, raise_at, gate_sends, slow_close, disc, pings, empty_at, producer, send_fail_at)
+            return run_asgi(prefix, kind, n, raise_at, gate_sends, slow_close, disc, pings, empty_at, producer if not str(producer).startswith("unencodable") else "agen", send_fail_at, unencodable_at=int(producer.split(":")[1]) if str(producer).startswith("unencodable") else None)
 
         def on_exec(x):
             r.count("evaluations")
@@ -966,7 +1004,7 @@ def run_shard(desc, tier):
             r.count("transitions", len(x.choices))
             o = x.obs
             outcomes.add((o["stuck"], o["enter"], o["exit"], o["exc"], o["pending_tasks"], o["live_timers"], len(o["sent"])))
-            probs = judge_asgi(o, kind, n, raise_at, disc, slow_close, empty_at, producer, send_fail_at)
+            probs = judge_asgi(o, kind, n, raise_at, disc, slow_close, empty_at, producer, send_fail_at, unencodable_at=int(producer.split(":")[1]) if str(producer).startswith("unencodable") else None)
             if probs:
                 what = "stuck" if probs[0].startswith("STUCK") else probs[0].split(" ")[0]
                 r.violation(f"asgi_{kind}:{what}", {"driver": "asgi", "config": [kind, n, raise_at, gate_sends, slow_close, disc, pings, empty_at], "producer": producer, "send_fail_at": send_fail_at, "schedule": list(x.choices)},
@@ -993,6 +1031,11 @@ def replay(w):
     if w["driver"] == "wsgi_sse_charset":
         x = run_wsgi_sse(list(w["schedule"]), w["n"], None, None, w["line_points"], 1, charset="utf-9")
         probs = judge_wsgi_sse(x.obs, w["n"], None, None, liveness_only=True)
+        return bool(probs), {"problems": probs, "trace": x.obs["trace"][-20:]}
+    if w["driver"] == "denial_stream":
+        from . import c11
+        x = c11.run_denial_stream(list(w["schedule"]), w["kind"])
+        probs = c11.judge_denial_stream(x.obs)
         return bool(probs), {"problems": probs, "trace": x.obs["trace"][-20:]}
     if w["driver"] == "asgi_shared":
         x = run_asgi_shared(list(w["schedule"]), w["kind"])
